@@ -83,13 +83,25 @@ func checkC26(p *Prog, r *Result, tier string) {
 			return true
 		})
 		ast.Inspect(E.Body, func(n ast.Node) bool {
-			if cc, ok := n.(*ast.CaseClause); ok && len(cc.List) == 1 {
-				if u, ok := unparen(cc.List[0]).(*ast.UnaryExpr); ok && u.Op == token.NOT {
-					if sel, ok := unparen(u.X).(*ast.SelectorExpr); ok && sel.Sel.Name == "Succeeded" {
-						for _, st := range cc.Body {
-							if rt, ok := st.(*ast.ReturnStmt); ok && strings.Contains(exprStr(rt.Results[len(rt.Results)-1]), "ErrKeyExists") {
-								existsOK = true
-							}
+			// `case !tx.Succeeded:` of a tagless switch, or `if !tx.Succeeded {`
+			var cond ast.Expr
+			var body []ast.Stmt
+			switch x := n.(type) {
+			case *ast.CaseClause:
+				if len(x.List) == 1 {
+					cond, body = x.List[0], x.Body
+				}
+			case *ast.IfStmt:
+				cond, body = x.Cond, x.Body.List
+			}
+			if cond == nil {
+				return true
+			}
+			if u, ok := unparen(cond).(*ast.UnaryExpr); ok && u.Op == token.NOT {
+				if sel, ok := unparen(u.X).(*ast.SelectorExpr); ok && sel.Sel.Name == "Succeeded" {
+					for _, st := range body {
+						if rt, ok := st.(*ast.ReturnStmt); ok && len(rt.Results) > 0 && strings.Contains(exprStr(rt.Results[len(rt.Results)-1]), "ErrKeyExists") {
+							existsOK = true
 						}
 					}
 				}
@@ -439,21 +451,28 @@ func checkC26(p *Prog, r *Result, tier string) {
 // goLiteral: the literal of fn that is started with a go statement or the worker pool.
 func goLiteral(p *Prog, fn *FuncNode) *FuncNode {
 	var out *FuncNode
-	for _, l := range fn.Lits {
-		ast.Inspect(fn.Body, func(x ast.Node) bool {
-			switch s := x.(type) {
-			case *ast.GoStmt:
-				if unparen(s.Call.Fun) == ast.Expr(l.Lit) {
-					out = l
-				}
-			case *ast.CallExpr:
-				if sel, ok := unparen(s.Fun).(*ast.SelectorExpr); ok && sel.Sel.Name == "Invoke" && len(s.Args) == 1 && unparen(s.Args[0]) == ast.Expr(l.Lit) {
-					out = l
+	// the literal itself or a local bound once to a literal (`keeper := func(){…}; pool.Invoke(keeper)`)
+	resolve := func(e ast.Expr) *FuncNode {
+		if t, ok := p.resolveFuncArg(fn, e); ok && t != nil && t.Lit != nil && topOf(t) == topOf(fn) {
+			return t
+		}
+		return nil
+	}
+	ast.Inspect(fn.Body, func(x ast.Node) bool {
+		switch s := x.(type) {
+		case *ast.GoStmt:
+			if t := resolve(s.Call.Fun); t != nil {
+				out = t
+			}
+		case *ast.CallExpr:
+			if sel, ok := unparen(s.Fun).(*ast.SelectorExpr); ok && sel.Sel.Name == "Invoke" && len(s.Args) == 1 {
+				if t := resolve(s.Args[0]); t != nil {
+					out = t
 				}
 			}
-			return true
-		})
-	}
+		}
+		return true
+	})
 	return out
 }
 
@@ -482,7 +501,8 @@ func c26Keeper(p *Prog, r *Result, pkg string, F, keeper *FuncNode) {
 		if !isR || len(rt.Results) != 3 {
 			return true
 		}
-		if lit, isL := unparen(rt.Results[1]).(*ast.FuncLit); isL {
+		if t, isL := p.resolveFuncArg(F, rt.Results[1]); isL && t != nil && t.Lit != nil {
+			lit := t.Lit
 			cancel, wait := false, false
 			ast.Inspect(lit.Body, func(x ast.Node) bool {
 				if c, isC := x.(*ast.CallExpr); isC {
